@@ -1,7 +1,804 @@
-//! C05 — not built yet.
-use crate::report::Tier;
+//! C05 — a persistent database reopens to exactly the state it was closed with.
+//! Random open / mutate / checkpoint / rotate / sync / close / reopen histories on a real
+//! on-disk GrafeoDB; after every reopen the full dump is compared with the persistent
+//! reference model (spec: everything survives). Known defects are described as named
+//! deviation rules on a simulated log (what the engine really writes and replays); an
+//! observation must equal the spec, or exactly the prediction of the open rules.
 
-pub fn run(_tier: Tier, _seed: u64) -> ! {
-    println!("INCONCLUSIVE property=C05 reason=monitor not built yet");
-    std::process::exit(2)
+use crate::hooks;
+use crate::model::Model;
+use crate::report::{Report, Tier};
+use crate::rng::{Rng, hash_str};
+use crate::util::{catch, scratch_dir};
+use crate::vals::{self, bit_eq};
+use grafeo_common::types::{EdgeId, NodeId, Value};
+use grafeo_engine::config::DurabilityMode;
+use grafeo_engine::{Config, GrafeoDB};
+use serde_json::json;
+use std::collections::{BTreeMap, BTreeSet};
+use std::sync::atomic::Ordering;
+
+#[derive(Clone, Debug)]
+pub enum MOp {
+    CreateNode { id: u64, labels: Vec<String> },
+    DeleteNode { id: u64 },
+    CreateEdge { id: u64, src: u64, dst: u64, ty: String },
+    DeleteEdge { id: u64 },
+    SetNodeProp { id: u64, k: String, v: Value },
+    SetEdgeProp { id: u64, k: String, v: Value },
+    RemoveNodeProp { id: u64, k: String },
+    RemoveEdgeProp { id: u64, k: String },
+    AddLabel { id: u64, l: String },
+    RemoveLabel { id: u64, l: String },
+}
+
+impl MOp {
+    pub fn apply(&self, m: &mut Model) {
+        match self {
+            // The engine's property tables are keyed by id and never check that the entity
+            // exists: a value written for a missing id stays and is inherited by the next entity
+            // that gets this id (only reachable when records were lost, i.e. under the rules).
+            MOp::CreateNode { id, labels } => {
+                let l: Vec<&str> = labels.iter().map(|s| s.as_str()).collect();
+                m.add_node(*id, &l, &[]);
+                if let Some(o) = m.orphan_node_props.remove(id) {
+                    m.nodes.get_mut(id).unwrap().props = o;
+                }
+            }
+            MOp::DeleteNode { id } => {
+                // deleting a missing node is a no-op (its orphan values stay)
+                m.del_node(*id, false);
+            }
+            MOp::CreateEdge { id, src, dst, ty } => {
+                m.add_edge(*id, *src, *dst, ty, &[]);
+                if let Some(o) = m.orphan_edge_props.remove(id) {
+                    m.edges.get_mut(id).unwrap().props = o;
+                }
+            }
+            MOp::DeleteEdge { id } => {
+                m.del_edge(*id);
+            }
+            MOp::SetNodeProp { id, k, v } => match m.nodes.get_mut(id) {
+                Some(n) => {
+                    n.props.insert(k.clone(), v.clone());
+                }
+                None => {
+                    m.orphan_node_props.entry(*id).or_default().insert(k.clone(), v.clone());
+                }
+            },
+            MOp::SetEdgeProp { id, k, v } => match m.edges.get_mut(id) {
+                Some(e) => {
+                    e.props.insert(k.clone(), v.clone());
+                }
+                None => {
+                    m.orphan_edge_props.entry(*id).or_default().insert(k.clone(), v.clone());
+                }
+            },
+            MOp::RemoveNodeProp { id, k } => match m.nodes.get_mut(id) {
+                Some(n) => {
+                    n.props.remove(k);
+                }
+                None => {
+                    if let Some(o) = m.orphan_node_props.get_mut(id) {
+                        o.remove(k);
+                    }
+                }
+            },
+            MOp::RemoveEdgeProp { id, k } => match m.edges.get_mut(id) {
+                Some(e) => {
+                    e.props.remove(k);
+                }
+                None => {
+                    if let Some(o) = m.orphan_edge_props.get_mut(id) {
+                        o.remove(k);
+                    }
+                }
+            },
+            MOp::AddLabel { id, l } => {
+                if let Some(n) = m.nodes.get_mut(id) {
+                    n.labels.insert(l.clone());
+                }
+            }
+            MOp::RemoveLabel { id, l } => {
+                if let Some(n) = m.nodes.get_mut(id) {
+                    n.labels.remove(l);
+                }
+            }
+        }
+    }
+}
+
+#[derive(Clone, Debug)]
+pub enum Rec {
+    Op(MOp),
+    Commit,
+    Checkpoint,
+    /// a record that is torn or fails its checksum: recovery stops reading this file here
+    Torn,
+}
+
+/// Which deviation rules (open findings) are switched on.
+#[derive(Clone, Copy, Debug, PartialEq, Eq)]
+pub struct Rules {
+    /// U1: statements executed through sessions append nothing to the log
+    pub u1: bool,
+    /// U2: remove_node_property / remove_edge_property append nothing
+    pub u2: bool,
+    /// U3: wal_checkpoint() writes a checkpoint marker without a commit marker; recovery drops
+    /// everything logged since the last commit marker when it sees it
+    pub u3: bool,
+    /// U4: recovery skips log files whose sequence is below the checkpoint's although their
+    /// content was never persisted elsewhere
+    pub u4: bool,
+}
+
+impl Rules {
+    pub fn from_findings(f: &crate::report::Findings) -> Self {
+        Rules { u1: f.rule_open("C05-U1"), u2: f.rule_open("C05-U2"), u3: f.rule_open("C05-U3"), u4: f.rule_open("C05-U4") }
+    }
+    pub fn without(self, which: usize) -> Rules {
+        let mut r = self;
+        match which {
+            1 => r.u1 = false,
+            2 => r.u2 = false,
+            3 => r.u3 = false,
+            _ => r.u4 = false,
+        }
+        r
+    }
+}
+
+/// The recorded history of one database directory: every mutation (with whether the engine
+/// was observed to append a record for it) and every log event, in the exact order in which
+/// the `wal.record` / `wal.rotate` / `wal.ckpt.renamed` hook events arrived.
+#[derive(Clone, Debug)]
+pub enum Logged {
+    /// via: 0 = direct API, 1 = session statement, 2 = remove_*_property
+    Op { op: MOp, via: u8, logged: bool },
+    /// a TxCommit record (written by close())
+    Commit,
+    /// a Checkpoint record
+    CkptRec,
+    /// checkpoint.meta renamed into place with log_sequence = current file
+    Meta,
+    /// log rotation (explicit or size-triggered)
+    Rotate,
+}
+
+/// Specification: everything that was done survives.
+pub fn predict_spec(events: &[Logged]) -> Model {
+    let mut m = Model::default();
+    for e in events {
+        if let Logged::Op { op, .. } = e {
+            op.apply(&mut m);
+        }
+    }
+    // orphan bookkeeping is an artefact of lost records; the spec has none
+    m.orphan_node_props.clear();
+    m.orphan_edge_props.clear();
+    m
+}
+
+/// Prediction of what the engine recovers, under the deviation `rules`:
+/// u1/u2 on = ops the engine did not log are absent from the files (as observed);
+/// u3 on = a Checkpoint record is not preceded by a commit marker unless one was observed;
+/// u4 on = files below the checkpoint's sequence are skipped.
+pub fn predict(events: &[Logged], rules: Rules) -> Model {
+    let mut files: BTreeMap<u64, Vec<Rec>> = BTreeMap::new();
+    let mut cur = 0u64;
+    let mut ckpt: Option<u64> = None;
+    files.insert(0, Vec::new());
+    let mut prev_was_commit = false;
+    for e in events {
+        match e {
+            Logged::Op { op, via, logged } => {
+                let present = *logged || (*via == 1 && !rules.u1) || (*via == 2 && !rules.u2);
+                if present {
+                    files.get_mut(&cur).unwrap().push(Rec::Op(op.clone()));
+                    prev_was_commit = false;
+                }
+            }
+            Logged::Commit => {
+                files.get_mut(&cur).unwrap().push(Rec::Commit);
+                prev_was_commit = true;
+            }
+            Logged::CkptRec => {
+                if !rules.u3 && !prev_was_commit {
+                    files.get_mut(&cur).unwrap().push(Rec::Commit);
+                }
+                files.get_mut(&cur).unwrap().push(Rec::Checkpoint);
+                prev_was_commit = false;
+            }
+            Logged::Meta => ckpt = Some(cur),
+            Logged::Rotate => {
+                cur += 1;
+                files.insert(cur, Vec::new());
+            }
+        }
+    }
+    recover_sim(&files, ckpt, rules)
+}
+
+/// The engine's recovery, simulated on explicit per-file record lists.
+pub fn recover_sim(files: &BTreeMap<u64, Vec<Rec>>, ckpt: Option<u64>, rules: Rules) -> Model {
+    let min_seq = if rules.u4 { ckpt.unwrap_or(0) } else { 0 };
+    let mut pending: Vec<MOp> = Vec::new();
+    let mut committed: Vec<MOp> = Vec::new();
+    for (seq, recs) in files {
+        if *seq < min_seq {
+            continue;
+        }
+        for r in recs {
+            match r {
+                Rec::Op(op) => pending.push(op.clone()),
+                Rec::Commit => committed.append(&mut pending),
+                // the engine's recovery drops what is pending when it reads a checkpoint record
+                Rec::Checkpoint => pending.clear(),
+                // stop this file, go on with the next one
+                Rec::Torn => break,
+            }
+        }
+    }
+    let mut m = Model::default();
+    for op in &committed {
+        op.apply(&mut m);
+    }
+    m
+}
+
+/// Turn the ops of one step plus the hook events it produced into history entries.
+/// Returns false if the number of records does not fit any reading (harness out of step).
+pub fn absorb(events: &mut Vec<Logged>, pushed: Vec<(MOp, u8)>, evs: &[(&'static str, u64, u64)], kind: StepKind) -> bool {
+    let n_rec = evs.iter().filter(|e| e.0 == "wal.record").count();
+    match kind {
+        StepKind::Mutation => {
+            let n_api = pushed.iter().filter(|p| p.1 == 0).count();
+            let logged: Vec<bool> = if n_rec == pushed.len() {
+                vec![true; pushed.len()]
+            } else if n_rec == n_api {
+                pushed.iter().map(|p| p.1 == 0).collect()
+            } else {
+                return false;
+            };
+            let mut it = pushed.into_iter().zip(logged).peekable();
+            for e in evs {
+                match e.0 {
+                    "wal.record" => {
+                        // unlogged ops that came before this record keep their place
+                        while let Some(((_, _), false)) = it.peek() {
+                            let ((op, via), _) = it.next().unwrap();
+                            events.push(Logged::Op { op, via, logged: false });
+                        }
+                        if let Some(((op, via), _)) = it.next() {
+                            events.push(Logged::Op { op, via, logged: true });
+                        }
+                    }
+                    "wal.rotate" => events.push(Logged::Rotate),
+                    _ => {}
+                }
+            }
+            for ((op, via), l) in it {
+                events.push(Logged::Op { op, via, logged: l });
+            }
+            true
+        }
+        StepKind::Close | StepKind::Checkpoint => {
+            // close(): TxCommit record, Checkpoint record, metadata; wal_checkpoint(): Checkpoint
+            // record (one record observed) or TxCommit + Checkpoint (two), metadata
+            let expect_commit = n_rec == 2;
+            if n_rec == 0 || n_rec > 2 || (kind == StepKind::Close && n_rec != 2) {
+                return false;
+            }
+            let mut seen = 0;
+            for e in evs {
+                match e.0 {
+                    "wal.record" => {
+                        seen += 1;
+                        if expect_commit && seen == 1 {
+                            events.push(Logged::Commit);
+                        } else {
+                            events.push(Logged::CkptRec);
+                        }
+                    }
+                    "wal.rotate" => events.push(Logged::Rotate),
+                    "wal.ckpt.renamed" => events.push(Logged::Meta),
+                    _ => {}
+                }
+            }
+            true
+        }
+        StepKind::Other => {
+            for e in evs {
+                if e.0 == "wal.rotate" {
+                    events.push(Logged::Rotate);
+                }
+            }
+            n_rec == 0
+        }
+    }
+}
+
+#[derive(Clone, Copy, PartialEq, Eq, Debug)]
+pub enum StepKind {
+    Mutation,
+    Close,
+    Checkpoint,
+    Other,
+}
+
+pub fn dump(db: &GrafeoDB) -> Model {
+    let mut m = Model::default();
+    for n in db.iter_nodes() {
+        let labels: Vec<String> = n.labels.iter().map(|l| l.to_string()).collect();
+        let l: Vec<&str> = labels.iter().map(|s| s.as_str()).collect();
+        let props: Vec<(String, Value)> = n.properties.iter().map(|(k, v)| (k.as_str().to_string(), v.clone())).collect();
+        let p: Vec<(&str, Value)> = props.iter().map(|(k, v)| (k.as_str(), v.clone())).collect();
+        m.add_node(n.id.as_u64(), &l, &p);
+    }
+    for e in db.iter_edges() {
+        let props: Vec<(String, Value)> = e.properties.iter().map(|(k, v)| (k.as_str().to_string(), v.clone())).collect();
+        let p: Vec<(&str, Value)> = props.iter().map(|(k, v)| (k.as_str(), v.clone())).collect();
+        m.add_edge(e.id.as_u64(), e.src.as_u64(), e.dst.as_u64(), e.edge_type.as_str(), &p);
+    }
+    m
+}
+
+/// first difference kind between an observed dump and an expected model
+pub fn diff_kind(obs: &Model, exp: &Model) -> Option<(String, serde_json::Value)> {
+    for (id, n) in &exp.nodes {
+        match obs.nodes.get(id) {
+            None => return Some(("missing_node".into(), json!({"id": id}))),
+            Some(o) => {
+                if o.labels != n.labels {
+                    return Some(("node_labels".into(), json!({"id": id, "got": o.labels, "expected": n.labels})));
+                }
+                let same = o.props.len() == n.props.len() && n.props.iter().all(|(k, v)| o.props.get(k).is_some_and(|x| bit_eq(x, v)));
+                if !same {
+                    return Some(("node_props".into(), json!({"id": id, "got": format!("{:?}", o.props), "expected": format!("{:?}", n.props)})));
+                }
+            }
+        }
+    }
+    for id in obs.nodes.keys() {
+        if !exp.nodes.contains_key(id) {
+            return Some(("extra_node".into(), json!({"id": id})));
+        }
+    }
+    for (id, e) in &exp.edges {
+        match obs.edges.get(id) {
+            None => return Some(("missing_edge".into(), json!({"id": id}))),
+            Some(o) => {
+                if (o.src, o.dst, &o.ty) != (e.src, e.dst, &e.ty) {
+                    return Some(("edge_shape".into(), json!({"id": id})));
+                }
+                let same = o.props.len() == e.props.len() && e.props.iter().all(|(k, v)| o.props.get(k).is_some_and(|x| bit_eq(x, v)));
+                if !same {
+                    return Some(("edge_props".into(), json!({"id": id, "got": format!("{:?}", o.props), "expected": format!("{:?}", e.props)})));
+                }
+            }
+        }
+    }
+    for id in obs.edges.keys() {
+        if !exp.edges.contains_key(id) {
+            return Some(("extra_edge".into(), json!({"id": id})));
+        }
+    }
+    None
+}
+
+const LABELS: &[&str] = &["A", "B", "C"];
+const KEYS: &[&str] = &["k", "w"];
+
+pub fn mode_name(m: &DurabilityMode) -> &'static str {
+    match m {
+        DurabilityMode::Sync => "sync",
+        DurabilityMode::Batch { .. } => "batch",
+        DurabilityMode::Adaptive { .. } => "adaptive",
+        DurabilityMode::NoSync => "nosync",
+    }
+}
+
+pub fn pick_mode(r: &mut Rng) -> DurabilityMode {
+    match r.below(4) {
+        0 => DurabilityMode::Sync,
+        1 => DurabilityMode::Batch { max_delay_ms: 1 + r.below(3) as u64, max_records: 1 + r.below(4) as u64 },
+        2 => DurabilityMode::Adaptive { target_interval_ms: 1 + r.below(5) as u64 },
+        _ => DurabilityMode::NoSync,
+    }
+}
+
+/// One mutating step against the open database; appends what the spec says is logged.
+pub fn mutate(db: &GrafeoDB, m: &mut Model, events: &mut Vec<(MOp, u8)>, r: &mut Rng, hist: &mut Vec<String>, kinds: &mut BTreeSet<&'static str>) {
+    mutate_opt(db, m, events, r, hist, kinds, false);
+}
+
+/// `logged_only`: restrict to the calls the engine logs (no remove_*_property, no session
+/// statements) — used by the crash checks, whose oracle is about the log.
+pub fn mutate_opt(db: &GrafeoDB, m: &mut Model, events: &mut Vec<(MOp, u8)>, r: &mut Rng, hist: &mut Vec<String>, kinds: &mut BTreeSet<&'static str>, logged_only: bool) {
+    let live: Vec<u64> = m.nodes.keys().copied().collect();
+    let elive: Vec<u64> = m.edges.keys().copied().collect();
+    let val = |r: &mut Rng| if r.chance(0.7) { vals::random_scalar(r) } else { vals::random(r, 2) };
+    let push = |events: &mut Vec<(MOp, u8)>, m: &mut Model, op: MOp, via: u8| {
+        op.apply(m);
+        events.push((op, via));
+    };
+    let weights: [u32; 14] = if logged_only { [10, 8, 10, 6, 4, 4, 4, 3, 3, 0, 0, 0, 0, 2] } else { [10, 8, 10, 6, 4, 4, 4, 3, 3, 3, 2, 4, 3, 2] };
+    match r.weighted(&weights) {
+        0 => {
+            kinds.insert("create_node");
+            let nl = r.below(3);
+            let labels: Vec<&str> = (0..nl).map(|_| *r.pick(LABELS)).collect::<BTreeSet<_>>().into_iter().collect();
+            let id = db.create_node(&labels).as_u64();
+            hist.push(format!("create_node({labels:?})->{id}"));
+            if m.nodes.contains_key(&id) {
+                hist.push(format!("ID COLLISION node {id}"));
+            }
+            push(events, m, MOp::CreateNode { id, labels: labels.iter().map(|s| (*s).to_string()).collect() }, 0);
+        }
+        1 => {
+            kinds.insert("create_node_with_props");
+            let labels = vec![*r.pick(LABELS)];
+            let props: Vec<(&str, Value)> = KEYS.iter().take(1 + r.below(2)).map(|k| (*k, val(r))).collect();
+            let id = db.create_node_with_props(&labels, props.iter().map(|(k, v)| (*k, v.clone()))).as_u64();
+            hist.push(format!("create_node_with_props({labels:?},..)->{id}"));
+            push(events, m, MOp::CreateNode { id, labels: labels.iter().map(|s| (*s).to_string()).collect() }, 0);
+            for (k, v) in props {
+                push(events, m, MOp::SetNodeProp { id, k: k.to_string(), v }, 0);
+            }
+        }
+        2 => {
+            kinds.insert("create_edge");
+            if live.is_empty() {
+                return;
+            }
+            let (s, t) = (*r.pick(&live), *r.pick(&live));
+            let ty = *r.pick(&["R", "S"]);
+            if r.chance(0.5) {
+                let id = db.create_edge(NodeId::new(s), NodeId::new(t), ty).as_u64();
+                hist.push(format!("create_edge({s},{t},{ty})->{id}"));
+                push(events, m, MOp::CreateEdge { id, src: s, dst: t, ty: ty.to_string() }, 0);
+            } else {
+                let v = val(r);
+                let id = db.create_edge_with_props(NodeId::new(s), NodeId::new(t), ty, [("w", v.clone())]).as_u64();
+                hist.push(format!("create_edge_with_props({s},{t},{ty})->{id}"));
+                push(events, m, MOp::CreateEdge { id, src: s, dst: t, ty: ty.to_string() }, 0);
+                push(events, m, MOp::SetEdgeProp { id, k: "w".into(), v }, 0);
+            }
+        }
+        3 => {
+            kinds.insert("set_node_property");
+            if live.is_empty() {
+                return;
+            }
+            let id = *r.pick(&live);
+            let k = *r.pick(KEYS);
+            let v = val(r);
+            db.set_node_property(NodeId::new(id), k, v.clone());
+            hist.push(format!("set_node_property({id},{k},{})", vals::show(&v)));
+            push(events, m, MOp::SetNodeProp { id, k: k.to_string(), v }, 0);
+        }
+        4 => {
+            kinds.insert("set_edge_property");
+            if elive.is_empty() {
+                return;
+            }
+            let id = *r.pick(&elive);
+            let v = val(r);
+            db.set_edge_property(EdgeId::new(id), "w", v.clone());
+            hist.push(format!("set_edge_property({id},w,{})", vals::show(&v)));
+            push(events, m, MOp::SetEdgeProp { id, k: "w".into(), v }, 0);
+        }
+        5 => {
+            kinds.insert("delete_edge");
+            if elive.is_empty() {
+                return;
+            }
+            let id = *r.pick(&elive);
+            db.delete_edge(EdgeId::new(id));
+            hist.push(format!("delete_edge({id})"));
+            push(events, m, MOp::DeleteEdge { id }, 0);
+        }
+        6 => {
+            kinds.insert("delete_node");
+            let cand: Vec<u64> = live.iter().copied().filter(|n| m.out_edges(*n).is_empty() && m.in_edges(*n).is_empty()).collect();
+            if cand.is_empty() {
+                return;
+            }
+            let id = *r.pick(&cand);
+            db.delete_node(NodeId::new(id));
+            hist.push(format!("delete_node({id})"));
+            push(events, m, MOp::DeleteNode { id }, 0);
+        }
+        7 => {
+            kinds.insert("add_node_label");
+            if live.is_empty() {
+                return;
+            }
+            let id = *r.pick(&live);
+            let l = *r.pick(LABELS);
+            if db.add_node_label(NodeId::new(id), l) {
+                push(events, m, MOp::AddLabel { id, l: l.to_string() }, 0);
+            }
+            hist.push(format!("add_node_label({id},{l})"));
+        }
+        8 => {
+            kinds.insert("remove_node_label");
+            if live.is_empty() {
+                return;
+            }
+            let id = *r.pick(&live);
+            let l = *r.pick(LABELS);
+            if db.remove_node_label(NodeId::new(id), l) {
+                push(events, m, MOp::RemoveLabel { id, l: l.to_string() }, 0);
+            }
+            hist.push(format!("remove_node_label({id},{l})"));
+        }
+        9 => {
+            kinds.insert("remove_node_property");
+            if live.is_empty() {
+                return;
+            }
+            let id = *r.pick(&live);
+            let k = *r.pick(KEYS);
+            if db.remove_node_property(NodeId::new(id), k) {
+                push(events, m, MOp::RemoveNodeProp { id, k: k.to_string() }, 2);
+            }
+            hist.push(format!("remove_node_property({id},{k})"));
+        }
+        10 => {
+            kinds.insert("remove_edge_property");
+            if elive.is_empty() {
+                return;
+            }
+            let id = *r.pick(&elive);
+            if db.remove_edge_property(EdgeId::new(id), "w") {
+                push(events, m, MOp::RemoveEdgeProp { id, k: "w".into() }, 2);
+            }
+            hist.push(format!("remove_edge_property({id},w)"));
+        }
+        11 => {
+            // mutating statement through a session (auto-commit or explicit transaction)
+            kinds.insert("session_insert");
+            let mut s = db.session();
+            let explicit = r.chance(0.5);
+            if explicit {
+                let _ = s.begin_tx();
+            }
+            let uid = 1000 + r.below(100_000) as i64;
+            let before: BTreeSet<u64> = dump(db).nodes.keys().copied().collect();
+            let ok = s.execute(&format!("INSERT (:S {{suid: {uid}}})")).is_ok();
+            if explicit {
+                let _ = s.commit();
+            }
+            if ok {
+                let after = dump(db);
+                for (id, n) in &after.nodes {
+                    if !before.contains(id) {
+                        push(events, m, MOp::CreateNode { id: *id, labels: n.labels.iter().cloned().collect() }, 1);
+                        for (k, v) in &n.props {
+                            push(events, m, MOp::SetNodeProp { id: *id, k: k.clone(), v: v.clone() }, 1);
+                        }
+                    }
+                }
+            }
+            hist.push(format!("session INSERT (:S {{suid:{uid}}}) explicit_tx={explicit}"));
+        }
+        12 => {
+            kinds.insert("session_set");
+            if live.is_empty() {
+                return;
+            }
+            // address a node by a unique property it certainly has: use id() if available
+            let id = *r.pick(&live);
+            let s = db.session();
+            let v = r.range(0, 1000);
+            let q = format!("MATCH (n) WHERE id(n) = {id} SET n.sv = {v}");
+            if s.execute(&q).is_ok() {
+                // only count it if it really happened
+                if db.get_node(NodeId::new(id)).and_then(|n| n.properties.get(&"sv".into()).cloned()) == Some(Value::Int64(v)) {
+                    push(events, m, MOp::SetNodeProp { id, k: "sv".into(), v: Value::Int64(v) }, 1);
+                }
+            }
+            hist.push(format!("session {q}"));
+        }
+        _ => {
+            kinds.insert("batch_create_nodes");
+            let n = 1 + r.below(3);
+            let vecs: Vec<Vec<f32>> = (0..n).map(|i| vec![i as f32, 1.0]).collect();
+            let ids = db.batch_create_nodes("V", "emb", vecs.clone());
+            hist.push(format!("batch_create_nodes(V,emb,{n})"));
+            for (id, v) in ids.iter().zip(vecs) {
+                push(events, m, MOp::CreateNode { id: id.as_u64(), labels: vec!["V".into()] }, 0);
+                push(events, m, MOp::SetNodeProp { id: id.as_u64(), k: "emb".into(), v: vals::vector(&v) }, 0);
+            }
+        }
+    }
+}
+
+pub fn open(path: &std::path::Path, mode: DurabilityMode) -> Result<GrafeoDB, String> {
+    match catch(|| GrafeoDB::with_config(Config::persistent(path).with_wal_durability(mode))) {
+        Ok(Ok(db)) => Ok(db),
+        Ok(Err(e)) => Err(format!("error:{}", e.to_string().lines().next().unwrap_or(""))),
+        Err(p) => Err(format!("panic@{}", p.site)),
+    }
+}
+
+fn run_history(rep: &mut Report, rules: Rules, seed: u64, case: u64, max_ops: usize) {
+    let mut r = Rng::new(seed, "C05", case);
+    let dir = scratch_dir("c05");
+    let path = dir.join("db");
+    let mode = pick_mode(&mut r);
+    let tiny_log = r.chance(0.25);
+    hooks::WAL_MAX_LOG_SIZE.store(if tiny_log { *r.pick(&[1u64, 64, 200, 1000]) } else { 0 }, Ordering::SeqCst);
+    hooks::RECORD_EVENTS.store(true, Ordering::SeqCst);
+    hooks::take_events();
+    let mut m = Model::default();
+    let mut events: Vec<Logged> = Vec::new();
+    let mut hist: Vec<String> = vec![format!("mode={} tiny_log={tiny_log}", mode_name(&mode))];
+    let mut kinds: BTreeSet<&'static str> = BTreeSet::new();
+    let cycles = 1 + r.below(4);
+    let mut had_ckpt_or_rot_before_reopen = false;
+    let mut reopens = 0;
+    'outer: for cycle in 0..cycles {
+        let db = match open(&path, mode.clone()) {
+            Ok(db) => db,
+            Err(e) => {
+                rep.deviation(&format!("reopen:open_failed|{}", e.split(':').next().unwrap_or("")), json!({"error": e, "history": hist}));
+                break 'outer;
+            }
+        };
+        hooks::take_events();
+        if cycle > 0 {
+            reopens += 1;
+            rep.eval();
+            rep.count("reopens", 1);
+            rep.count(&format!("reopens.mode.{}", mode_name(&mode)), 1);
+            let obs = dump(&db);
+            let spec = predict_spec(&events);
+            let dev = predict(&events, rules);
+            if let Some((kind, d)) = diff_kind(&obs, &spec) {
+                if diff_kind(&obs, &dev).is_none() {
+                    // explained by the open rules: name the ones that matter
+                    for (i, id) in [(1, "C05-U1"), (2, "C05-U2"), (3, "C05-U3"), (4, "C05-U4")] {
+                        let active = match i {
+                            1 => rules.u1,
+                            2 => rules.u2,
+                            3 => rules.u3,
+                            _ => rules.u4,
+                        };
+                        if active && diff_kind(&predict(&events, rules.without(i)), &dev).is_some() {
+                            rep.known_rule(id, &format!("reopen {kind} mode={}", mode_name(&mode)));
+                        }
+                    }
+                } else {
+                    let (k2, d2) = diff_kind(&obs, &dev).unwrap();
+                    rep.deviation(
+                        &format!("reopen:{kind}|vs_rules:{k2}"),
+                        json!({"mode": mode_name(&mode), "vs_spec": d, "vs_known_rules": d2, "history": hist, "case": case}),
+                    );
+                    break 'outer;
+                }
+            } else if diff_kind(&spec, &dev).is_some() {
+                // the engine did better than the open findings predict
+                rep.count("reopens_better_than_rules_predict", 1);
+                break 'outer;
+            }
+            // the history continues from what is really there (plus the invisible orphan values
+            // the rules predict); the files on disk are unchanged, so the event list stays valid
+            m = obs;
+            m.orphan_node_props = dev.orphan_node_props.clone();
+            m.orphan_edge_props = dev.orphan_edge_props.clone();
+        }
+        let nops = 3 + r.below(max_ops);
+        for _ in 0..nops {
+            let mut pushed: Vec<(MOp, u8)> = Vec::new();
+            let kind = match r.below(20) {
+                0 => {
+                    let _ = db.wal_checkpoint();
+                    hist.push("wal_checkpoint()".into());
+                    kinds.insert("wal_checkpoint");
+                    had_ckpt_or_rot_before_reopen = true;
+                    StepKind::Checkpoint
+                }
+                1 => {
+                    if let Some(w) = db.wal() {
+                        let _ = w.rotate();
+                        hist.push("wal.rotate()".into());
+                        kinds.insert("rotate");
+                    }
+                    StepKind::Other
+                }
+                2 => {
+                    if let Some(w) = db.wal() {
+                        let _ = w.sync();
+                        hist.push("wal.sync()".into());
+                        kinds.insert("sync");
+                    }
+                    StepKind::Other
+                }
+                _ => {
+                    let ids_before: BTreeSet<u64> = m.nodes.keys().copied().collect();
+                    let e_before: BTreeSet<u64> = m.edges.keys().copied().collect();
+                    mutate(&db, &mut m, &mut pushed, &mut r, &mut hist, &mut kinds);
+                    // identifiers handed out never collide with existing ones
+                    for (op, _) in &pushed {
+                        if let MOp::CreateNode { id, .. } = op {
+                            if ids_before.contains(id) {
+                                rep.deviation("ids:node_id_collides_with_existing", json!({"id": id, "history": hist}));
+                            }
+                        }
+                        if let MOp::CreateEdge { id, .. } = op {
+                            if e_before.contains(id) {
+                                rep.deviation("ids:edge_id_collides_with_existing", json!({"id": id, "history": hist}));
+                            }
+                        }
+                    }
+                    StepKind::Mutation
+                }
+            };
+            let evs = hooks::take_events();
+            let rots = evs.iter().filter(|e| e.0 == "wal.rotate").count() as u64;
+            if rots > 0 {
+                had_ckpt_or_rot_before_reopen = true;
+                rep.count("rotations_observed", rots);
+            }
+            if !absorb(&mut events, pushed, &evs, kind) {
+                rep.count("histories_abandoned_record_count_unexpected", 1);
+                hist.push(format!("ABANDONED: unexpected number of wal.record events for {kind:?}: {evs:?}"));
+                let _ = db.close();
+                break 'outer;
+            }
+        }
+        // the live state must equal the model before closing
+        if let Some((k, d)) = diff_kind(&dump(&db), &m) {
+            rep.deviation(&format!("live:{k}"), json!({"detail": d, "history": hist}));
+            break 'outer;
+        }
+        match catch(|| db.close()) {
+            Ok(Ok(())) => {}
+            Ok(Err(e)) => {
+                rep.deviation("close:error", json!({"error": e.to_string(), "history": hist}));
+                break 'outer;
+            }
+            Err(p) => {
+                rep.deviation(&format!("close:panic@{}", p.site), json!({"history": hist}));
+                break 'outer;
+            }
+        }
+        let evs = hooks::take_events();
+        if !absorb(&mut events, Vec::new(), &evs, StepKind::Close) {
+            rep.count("histories_abandoned_record_count_unexpected", 1);
+            break 'outer;
+        }
+        hist.push("close()".into());
+        drop(db);
+    }
+    hooks::WAL_MAX_LOG_SIZE.store(0, Ordering::SeqCst);
+    hooks::RECORD_EVENTS.store(false, Ordering::SeqCst);
+    if reopens >= 1 && had_ckpt_or_rot_before_reopen && kinds.len() >= 3 {
+        rep.nontrivial(hash_str(&hist.join(";")));
+    }
+    for k in &kinds {
+        rep.count(&format!("op.{k}"), 1);
+    }
+    if case < 2 {
+        rep.sample(json!({"case": case, "history": hist.iter().take(25).collect::<Vec<_>>()}));
+    }
+    let _ = std::fs::remove_dir_all(&dir);
+}
+
+pub fn run(tier: Tier, seed: u64) -> ! {
+    let mut rep = Report::new("C05", tier, seed, "exploration");
+    rep.rule = "random histories on an on-disk GrafeoDB: every mutating direct-API call (create/delete node and edge, with props, set/remove property with every value type, add/remove label, batch_create_nodes), mutating statements through sessions (auto-commit and explicit transactions), interleaved with wal_checkpoint(), wal().rotate(), wal().sync(), size-triggered rotation (threshold override hook from 'every record' upward) and 1-4 close/reopen cycles, under each durability mode (sync, batch with tiny thresholds, adaptive, no-sync). After every reopen the dump is compared with the persistent model; new identifiers must not collide. non-trivial = history with >= 1 reopen preceded by a checkpoint or rotation and >= 3 op kinds; distinct by hash of the operation list".into();
+    let rules = Rules::from_findings(&rep.findings);
+    rep.extra.insert("deviation_rules_on".into(), json!(format!("{rules:?}")));
+    let n = tier.pick(250, 12_000);
+    for case in 0..n {
+        run_history(&mut rep, rules, seed, case, tier.pick(25, 60));
+    }
+    rep.assumptions = vec![
+        "local filesystem of the sandbox; no claim about other filesystems".into(),
+        "nodes are only deleted when they have no edges (dangling endpoints are C14's validate() business)".into(),
+    ];
+    rep.finish()
 }
